@@ -31,6 +31,8 @@ func main() {
 		os.Exit(cmdSelftest(os.Args[2:]))
 	case "all":
 		os.Exit(cmdAll(os.Args[2:]))
+	case "lemmas":
+		os.Exit(cmdLemmas(os.Args[2:]))
 	default:
 		usage()
 	}
@@ -118,4 +120,41 @@ func firstLines(s string, n int) string {
 		ls = ls[:n]
 	}
 	return strings.Join(ls, " | ")
+}
+
+func cmdLemmas(args []string) int {
+	e, err := newEngine()
+	if err != nil {
+		fmt.Fprintln(os.Stderr, "error:", err)
+		return 2
+	}
+	var only map[string]bool
+	if len(args) > 0 {
+		only = map[string]bool{}
+		for _, a := range args {
+			only[a] = true
+		}
+	}
+	obls, err := e.LemmaObligations(only)
+	if err != nil {
+		fmt.Println("ERROR:", err)
+		return 1
+	}
+	dir, _ := os.MkdirTemp("", "vc-")
+	if os.Getenv("VC_KEEP") != "" {
+		dir = os.Getenv("VC_KEEP")
+	} else {
+		defer os.RemoveAll(dir)
+	}
+	e.Discharge(obls, SolveOpts{TimeoutS: 20, Dir: dir, Workers: 8})
+	rc := 0
+	for _, o := range obls {
+		if o.Status == "discharged" {
+			fmt.Printf("  ok   %-50s %s %.2fs\n", o.Name, o.Solver, o.Seconds)
+		} else {
+			rc = 1
+			fmt.Printf("  %-7s %s %s\n      %s\n", strings.ToUpper(o.Status), o.Name, o.SmtPath, firstLines(o.Output, 2))
+		}
+	}
+	return rc
 }
